@@ -18,8 +18,8 @@ func init() { register("C14", "other", checkC14) }
 func checkC14(c *Ctx) {
 	r := c.Rep
 	p := c.Prog
-	r.Explain = "The numeric content of this property (exact mantissa x 2^exponent decoding, largest-representable encoding, monotonicity, saturation) is IEEE-754 arithmetic and is NOT decided: no engine here models floating point. Its integer/structural clauses are: NEG - every nil-error return of MarshalTo is dominated by the false edge of a test `bitrate < 0` on the (clamped) receiver bitrate (SSA dominator conditions); EXP - at every nil-error return the exponent that was shifted into octet 17 is entailed below 64 (numeric engine; the conversion byte(exp<<2) is C08's obligation as well); CNT-ENC - octet 16 of the encoding is the low 8 bits of len(SSRCs) (bit-provenance map) and a nil-error return entails len(SSRCs) <= 255; CNT-DEC - at every nil-error return of Unmarshal the number of decoded SSRCs equals the count octet buf[16] and the frame length 20 + 4*count (numeric engine)."
-	r.RuleText = "C14-NEG, C14-EXP, C14-CNT-ENC, C14-CNT-DEC."
+	r.Explain = "The numeric content of this property (exact mantissa x 2^exponent decoding, largest-representable encoding, monotonicity, saturation) is IEEE-754 arithmetic and is NOT decided: no engine here models floating point. Its integer/structural clauses are: NEG - every nil-error return of MarshalTo is dominated by the false edge of a test `bitrate < 0` on the (clamped) receiver bitrate (SSA dominator conditions); EXP - at every nil-error return the exponent that was shifted into octet 17 is entailed below 64 (numeric engine; the conversion byte(exp<<2) is C08's obligation as well); PACK - the mantissa bits OR-ed into octet 17 next to the exponent are entailed <= 3, using the one piece of floating-point reasoning the engine has: an upper bound of a float value learned from a comparison with a constant on a branch (here the exit of `for bitrate >= 1<<18`), carried through float conversions, math.Floor and the conversion to an integer (NaN is outside the model); CNT-ENC - octet 16 of the encoding is the low 8 bits of len(SSRCs) (bit-provenance map) and a nil-error return entails len(SSRCs) <= 255; CNT-DEC - at every nil-error return of Unmarshal the number of decoded SSRCs equals the count octet buf[16] and the frame length 20 + 4*count (numeric engine)."
+	r.RuleText = "C14-NEG, C14-EXP, C14-PACK, C14-CNT-ENC, C14-CNT-DEC."
 	r.Trusted = []string{"go/ssa", "checker/num", "checker/bits"}
 	r.Assume = []string{"decoder receiver is a zero value"}
 	r.NotCov("decode(mantissa, exponent) = mantissa x 2^exponent for all 2^24 pairs; encode(x) = largest representable value <= x; monotonicity; saturation at 0x3FFFF x 2^63; the mantissa/exponent bit packing of octets 17..19 — all float32 arithmetic (math.Floor, division by two, Float32frombits)")
@@ -126,6 +126,44 @@ func checkC14(c *Ctx) {
 	}
 	e := newNumEngine(c, nil)
 	e.WrapLCong = true
+	// PACK: x<<s | y in MarshalTo: y must fit below bit s (the mantissa's top bits next to the exponent)
+	packSeen, packOK := 0, 0
+	packDet := ""
+	shiftOf := func(v ssa.Value) (int64, bool) {
+		for d := 0; d < 4; d++ {
+			switch x := v.(type) {
+			case *ssa.Convert:
+				v = x.X
+				continue
+			case *ssa.BinOp:
+				if x.Op == token.SHL {
+					if k, ok := x.Y.(*ssa.Const); ok && k.Value != nil {
+						return k.Int64(), true
+					}
+				}
+			}
+			break
+		}
+		return 0, false
+	}
+	e.BinOpHook = func(e *num.Engine, st *num.State, x *ssa.BinOp) {
+		if x.Op != token.OR || x.Parent() != mt {
+			return
+		}
+		for _, pair := range [][2]ssa.Value{{x.X, x.Y}, {x.Y, x.X}} {
+			if s, ok := shiftOf(pair[0]); ok && s > 0 && s < 8 {
+				packSeen++
+				y := e.ExprOf(st, pair[1])
+				if !y.Bad && st.Entails(y) && st.Entails(y.Neg().AddConst(int64(1)<<uint(s)-1)) {
+					packOK++
+				} else {
+					b := st.Bounds(y)
+					packDet = fmt.Sprintf("the operand OR-ed below a value shifted by %d is only known to lie in %s (needs [0,%d])", s, rangeStr(b), int64(1)<<uint(s)-1)
+				}
+				return
+			}
+		}
+	}
 	var rets []num.RootReturn
 	if msg := guarded(func() { rets = e.AnalyzeRoot(mt, num.RootOptions{ElemsNonNil: true}) }); msg != "" {
 		r.Fatalf("analysis panic in REMB MarshalTo: %s", msg)
@@ -150,6 +188,9 @@ func checkC14(c *Ctx) {
 	}
 	r.Check(expShift != nil && n > 0 && okExp == n, "C14-EXP", "ReceiverEstimatedMaximumBitrate.MarshalTo/exponent-below-64", p.Pos(mt.Pos()),
 		fmt.Sprintf("0 <= exp <= 63 entailed at all %d nil-error return(s) for the value shifted into octet 17", n), "the exponent written into octet 17 is not entailed to fit 6 bits at every nil-error return")
+	r.Check(packSeen > 0 && packOK == packSeen, "C14-PACK", "ReceiverEstimatedMaximumBitrate.MarshalTo/mantissa-top-bits-below-the-exponent", p.Pos(mt.Pos()),
+		fmt.Sprintf("in every `exp<<2 | mantissa>>16` the right operand is entailed <= 3 (%d evaluation(s)); the bound comes from the loop exit `!(bitrate >= 1<<18)` carried through Floor and the conversion to uint", packSeen),
+		packDet)
 	lr := runLayouts(c, "ReceiverEstimatedMaximumBitrate")["ReceiverEstimatedMaximumBitrate"]
 	cntOK := false
 	why := "encoder not analysable"
